@@ -7,6 +7,7 @@ scheduler.  Oracles: O1 from-scratch instance agrees (after every op sequentiall
 quiescence concurrently), O2 independent reference on undisputed cases, O3 window
 consistency of concurrent calls, O4 hierarchy relations vs closure model.
 """
+import abc
 import copy
 import itertools
 
@@ -89,7 +90,10 @@ def _gen_mut_ops(rng, universe, allow_all, allow_default, n):
 
 def gen(rng, tier, index):
     hs = rng.sample(range(64), 3)
-    base = {"clshash": {"K0": hs[0], "K1": hs[1], "K2": hs[2]}, "throw_dispatch": None}
+    base = {"clshash": {"K0": hs[0], "K1": hs[1], "K2": hs[2]}, "throw_dispatch": None,
+            # K2 registered as a *virtual* subclass of K0 (abc.register): isa? holds through issubclass only,
+            # K0 is in neither (supers K2) nor (ancestors K2)
+            "virtual": rng.random() < 0.4}
     universe = KWS + CLS
     if rng.random() < 0.3:
         n = rng.choice([3, 5, 7, 7, 12, 25, 40]) if tier == "thorough" else rng.choice([3, 5, 7, 7, 12, 20])
@@ -197,7 +201,7 @@ def nontrivial(rec):
 
 def describe():
     return {
-        "rule": "universe = 5 namespaced keywords + 3 classes (K1 subclasses K0; seeded class hashes), identity dispatch, "
+        "rule": "universe = 5 namespaced keywords + 3 classes (K1 subclasses K0; in 40% of runs K2 is an abc-registered virtual subclass of K0; seeded class hashes), identity dispatch, "
                 "each method returns its own tag. 30% sequential histories (3-20 ops quick, up to 40 thorough) of "
                 "add/remove/remove-all/prefer/derive/underive with every dispatch value called after every op; 70% "
                 "concurrent: 1-2 mutators (second restricted to a disjoint key/tag set) + 1-2 callers, optional throwing "
@@ -278,6 +282,9 @@ class HModel:
         return m
 
 
+_VIRTUAL = set()        # (sub, super) pairs registered with abc for the workload being run
+
+
 def _is_cls(t):
     return t in CLS
 
@@ -298,7 +305,7 @@ def m_isa(m, x, y):
         anc = anc | _supers(x)
     if y in anc:
         return True
-    return _is_cls(x) and _is_cls(y) and y in _supers(x)
+    return _is_cls(x) and _is_cls(y) and (y in _supers(x) or (x, y) in _VIRTUAL)
 
 
 def reference(m, v):
@@ -330,12 +337,16 @@ class World:
         self.k = k
         ch = workload["clshash"]
 
-        class SeededMeta(type):
+        class SeededMeta(abc.ABCMeta if workload.get("virtual") else type):
             def __hash__(cls):
                 return cls._h
         K0 = SeededMeta("K0", (), {"_h": ch["K0"]})
         K1 = SeededMeta("K1", (K0,), {"_h": ch["K1"]})
         K2 = SeededMeta("K2", (), {"_h": ch["K2"]})
+        _VIRTUAL.clear()
+        if workload.get("virtual"):
+            K0.register(K2)
+            _VIRTUAL.add(("K2", "K0"))
         self.obj = {n: kw.keyword(n, ns="v") for n in KWS}
         self.obj.update(K0=K0, K1=K1, K2=K2, zz=kw.keyword("zz", ns="v"))
         self.obj[DEFAULT] = kw.keyword("default")
